@@ -27,7 +27,7 @@ RULE = (
     "object, same key via data=/msg=/from_type_string/AgentKey.inner_key/certificate blob/other private provenance, or "
     "another key; RSA algorithm among 6 names; message 0-2000 bytes; data same/altered; blob mutation none/bitflip/"
     "truncate/extend/algorithm name (other type, hash, curve, unknown, empty, invalid UTF-8)/signature length/ECDSA inner "
-    "integers (non-minimal, negative, zero, >= order, 4096-bit, missing, trailing, (r,n-s))/zero-tail truncation/random "
+    "integers (non-minimal, negative, zero, >= order, 4096-bit, missing, trailing, (r,n-s))/zero-tail truncation (outer, inner)/random "
     "bytes); non-trivial = anything but 'unmodified signature checked by the signing object itself'; distinct by SHA-1 "
     "of (verifier, data, blob)"
 )
@@ -102,13 +102,13 @@ def provs_for(keyid, private_only):
     out = ["fileobj"]
     if isinstance(keyid, str):
         out += ["file", "from_path"]
-        if keyid in CERTS:
+        if isinstance(keyid, str) and keyid in CERTS:
             out.append("file+cert")
     if cls != "Ed25519Key":
         out.append("object")
     if not private_only:
         out += ["data", "msg", "type_string", "agent_inner"]
-        if keyid in CERTS:
+        if isinstance(keyid, str) and keyid in CERTS:
             out.append("certdata")
     return sorted(out)
 
@@ -211,6 +211,7 @@ mutations = st.one_of(
     ).map(list),
     st.tuples(st.just("inner-raw"), st.binary(max_size=24)).map(list),
     st.just(["zero-tail"]),
+    st.just(["inner-zero-tail"]),
     st.tuples(st.just("random"), st.binary(max_size=80)).map(list),
     st.tuples(st.just("lenfield"), st.integers(0, 1), st.sampled_from([0, 1, 0x7FFFFFFF, 0x80000000, 0xFFFFFFFF, 0x100000, 0xFFFFF])).map(list),
 )
@@ -318,13 +319,15 @@ def realise(rc):
             cand = msg + b"#%d" % i
             bl = sign(cand)
             if bl.endswith(b"\x00"):
-                msg, blob = cand, bl[:-1]
+                msg, blob = cand, bl
                 break
         if blob is None:
             blob, applied = sign(msg), False
     else:
         blob = sign(msg)
     alg, sig = _split(blob)
+    if kind == "zero-tail" and applied:
+        blob = blob[:-1]
     if kind in ("none", "zero-tail"):
         pass
     elif kind == "flip":
@@ -376,6 +379,17 @@ def realise(rc):
             blob = _join(alg, _inner(mut[1], r_, s_, K.curve_order(ref_public(rc["signer"]).curve)))
     elif kind == "inner-raw":
         blob = _join(alg, bytes(mut[1]))
+    elif kind == "inner-zero-tail":
+        # directed: s ends in a zero byte; the inner encoding loses it (inner length field untouched,
+        # outer length field correct)
+        applied = False
+        if cls == "ECDSAKey":
+            for i in range(3000):
+                cand = msg + b"#%d" % i
+                a2, s2 = _split(sign(cand))
+                if s2.endswith(b"\x00"):
+                    msg, blob, applied = cand, _join(a2, s2[:-1]), True
+                    break
     elif kind == "random":
         blob = bytes(mut[1])
     elif kind == "lenfield":
@@ -440,7 +454,7 @@ def _simpler(rc):
     """Candidate simplifications of a recipe (tried in order by the per-bucket minimiser)."""
     out = []
     for m in (b"", b"a"):
-        if bytes(rc["msg"]) != m:
+        if len(bytes(rc["msg"])) > len(m):
             out.append(dict(rc, msg=m))
     if rc["data"] != "same":
         out.append(dict(rc, data="same"))
@@ -448,7 +462,7 @@ def _simpler(rc):
         out.append(dict(rc, verifier=rc["signer"]))
     if rc["alg"] is not None:
         out.append(dict(rc, alg=None))
-    if rc["mut"][0] == "flip" or rc["mut"][0] == "trunc":
+    if rc["mut"][0] in ("flip", "trunc") and rc["mut"][1] != 0:
         out.append(dict(rc, mut=[rc["mut"][0], 0] + list(rc["mut"][2:])))
     return out
 
